@@ -33,7 +33,7 @@ def build():
         J.append(Job(name or ("E1/" + fn), "E1", harness, "h_" + fn, props, enforce=fn, replace=replace,
                      defs=["VC_HARNESS_OBJECTS"] + list(defs), loop_contracts=loop, cbmc_args=args, timeout=timeout, mem_gb=mem, tier=tier,
                      note=note, expect_fail=list(expect_fail) + ["vacuity", "vacuity-true", "vacuity-false"],
-                     portfolio=fn in PORTFOLIO, witness_defs=["VC_SMALL_WITNESS"] if fn == "_cmp_name" else []))
+                     portfolio=fn in PORTFOLIO, witness_defs=["VC_SMALL_WITNESS"] if (fn == "_cmp_name" or harness == HW) else []))
 
     import copy as _copy
 
